@@ -7,6 +7,7 @@ TRUSTED_BASE = [
     "OCaml 4.13.1 compiler and ocaml/driver.ml (hex codec, line parser, int->N/Z conversion)",
     "Go harness (harness/*.go: request builders, response canonicalisation, generators) and bin/check (python)",
     "correspondence is differential testing on generated inputs: the theorem is about the hand-written Gallina model; model = code only on the compared observables of the explored cases",
+    "go2coq (go2coq/*.go, unverified): translates range.go Range/parseRangeHeader, error.go Status + constants, validation.go ValidateBucketName from /repo's working tree into Gallina on every run of C11 / C09 / C17; trusted in it: the translation scheme, the result-adapter and struct tables, the http.Status* table; coq/Base/GoLib.v: the Gallina meaning given to len, slicing, strings.HasPrefix/Split/TrimSpace/Index, strconv.ParseInt, regexp MatchString (not interpreted: the regexp text is pinned to the one the hand-compiled matcher was written for), net.ParseIP (IPv4 branch)",
     "modelled not verified: Go stdlib (strings, strconv.ParseInt, regexp as used, net.ParseIP, fmt), net/http request parsing, encoding/xml, goskiplist, bbolt, afero, sync primitives",
 ]
 
@@ -16,6 +17,8 @@ HOOK_COMMITS = ["cc1e0d5"]
 PROPS = {
     "C11": {
         "title": "Range reads return exactly the requested bytes or InvalidRange",
+        "gen": {"out": "RangeGen", "go": "range.go (ObjectRangeRequest.Range, parseRangeHeader)",
+                "theorems": ["C11_gen_range_is_model", "C11_gen_parser_is_model", "C11_gen_range_correct", "C11_gen_no_other_failure", "C11_gen_parser_output_wellformed"]},
         "harness": "c11",
         "model": "Model/Range.v get_range (parseRangeHeader + ObjectRangeRequest.Range + backend slicing, int64 wrap explicit)",
         "rule": "GET with a Range header on objects of size 0..6 (quick) / 0..24 (thorough), 100 and 4097, on all six backend "
@@ -31,6 +34,8 @@ PROPS = {
     },
     "C17": {
         "title": "Bucket names are accepted exactly when they satisfy the documented S3 rules",
+        "gen": {"out": "NameGen", "go": "validation.go (ValidateBucketName, bucketNamePattern)",
+                "theorems": ["C17_gen_validator_is_model", "C17_gen_regexp_text_pinned", "C17_gen_validator_eq_spec", "C17_gen_create_iff", "C17_gen_refused_creates_nothing"]},
         "harness": "c17",
         "model": "Model/BucketName.v validate (regexp matcher, net.ParseIP dotted-quad branch, per-label regexp) and create_bucket",
         "rule": "ValidateBucketName called directly on every string of length <= 5 (quick) / 6 (thorough) over {a,z,0,9,-,.,A,_}, on "
@@ -81,6 +86,7 @@ PROPS = {
     },
     "C03": {
         "title": "Listings are the exact, sorted, correctly grouped view of the live keys",
+        "extra_property_files": ["C03_fs"],
         "harness": "c03",
         "model": "Model/Prefix.v prefix_match + Model/Mem.v scan/list_bucket (unpaginated)",
         "rule": "per backend: key sets = all subsets of size <= 2 of the 18 keys over {a,b,/} (length <= 3, not starting/ending with "
@@ -281,6 +287,8 @@ PROPS = {
     },
     "C09": {
         "title": "Every request gets a well-formed answer; no panic, hang or wedged state",
+        "gen": {"out": "ErrorsGen", "go": "error.go (ErrorCode.Status, the ErrorCode constants)",
+                "theorems": ["C09_gen_status_is_model", "C09_gen_status_table_sane"]},
         "harness": "c09",
         "model": "Model/Errors.v status table; Model/Handlers.v step, Model/Uploader.v, Model/MemVersions.v, Model/Range.v, Model/Chunk.v (each with explicit panic outcomes where the Go code can index / slice / dereference nil)",
         "rule": "350 (quick) / 20000 (thorough) grammar-generated requests per configuration (memory: default, auto-bucket, no-versioning, "
